@@ -494,7 +494,7 @@ pub fn oracle_conn(c: &ConnCase, run: &ConnRun) -> Result<(), String> {
                 if let Some(hd) = &head {
                     e.check_head(hd).map_err(|m| format!("response {i}: {m}"))?;
                 }
-                let aborted = has_err || e.short() || body_erred;
+                let aborted = !e.no_body() && (has_err || e.short() || body_erred);
                 if failed && aborted {
                     if !last {
                         return Err(format!("request {} started after response {i} was aborted", i + 1));
